@@ -2,3 +2,598 @@
 From PV Require Import Lib.Py Lib.Tac Spec.IhexSpec Model.Hexfile.
 From Coq Require Import String Ascii.
 Open Scope Z_scope.
+
+(* ---------------- generic list facts *)
+Lemma sumZ_app a b : sumZ (a ++ b) = sumZ a + sumZ b.
+Proof. induction a as [|x a IH]; cbn [app sumZ]; lia. Qed.
+Lemma all_byte_app a b : all_byte (a ++ b) = all_byte a && all_byte b.
+Proof. unfold all_byte. apply forallb_app. Qed.
+Lemma len_app {A} (a b : list A) : len (a ++ b) = len a + len b.
+Proof. unfold len. rewrite app_length. lia. Qed.
+Lemma len_nonneg {A} (l : list A) : 0 <= len l.
+Proof. unfold len. lia. Qed.
+Lemma len_cons {A} (x : A) l : len (x :: l) = 1 + len l.
+Proof. unfold len. cbn [List.length]. lia. Qed.
+
+(* ---------------- text layer *)
+Lemma hexval_model n : 0 <= n < 16 -> Hexfile.hexval (hexdigit_lower n) = Some n.
+Proof.
+  intros H.
+  assert (A : forallb (fun n => match Hexfile.hexval (hexdigit_lower n) with Some m => m =? n | None => false end)
+                      (rangeZ 0 16) = true) by (vm_compute; reflexivity).
+  rewrite forallb_forall in A. specialize (A n). rewrite rangeZ_In in A. specialize (A H).
+  destruct (Hexfile.hexval (hexdigit_lower n)); [f_equal; lia | discriminate].
+Qed.
+Lemma hexval_spec n : 0 <= n < 16 -> IhexSpec.hexval (hexdigit_lower n) = Some n.
+Proof.
+  intros H.
+  assert (A : forallb (fun n => match IhexSpec.hexval (hexdigit_lower n) with Some m => m =? n | None => false end)
+                      (rangeZ 0 16) = true) by (vm_compute; reflexivity).
+  rewrite forallb_forall in A. specialize (A n). rewrite rangeZ_In in A. specialize (A H).
+  destruct (IhexSpec.hexval (hexdigit_lower n)); [f_equal; lia | discriminate].
+Qed.
+
+Lemma fromhex_hexlify bs : all_byte bs = true -> fromhex (hexlify bs) = Some bs.
+Proof.
+  induction bs as [|b r IH]; intros H; [reflexivity|].
+  cbn [all_byte forallb] in H. apply andb_true_iff in H. destruct H as [Hb Hr]. unfold is_byte in Hb.
+  cbn [hexlify fromhex]. rewrite !hexval_model by lia. fold (all_byte r) in Hr. rewrite (IH Hr).
+  do 2 f_equal. lia.
+Qed.
+Lemma hex_bytes_hexlify bs : all_byte bs = true -> hex_bytes (hexlify bs) = Some bs.
+Proof.
+  induction bs as [|b r IH]; intros H; [reflexivity|].
+  cbn [all_byte forallb] in H. apply andb_true_iff in H. destruct H as [Hb Hr]. unfold is_byte in Hb.
+  cbn [hexlify hex_bytes]. rewrite !hexval_spec by lia. fold (all_byte r) in Hr. rewrite (IH Hr).
+  do 2 f_equal. lia.
+Qed.
+
+(* ---------------- lines *)
+Definition valid_line (l : HexLine) : Prop :=
+  0 <= address l < 65536 /\ is_byte (typ l) = true /\ all_byte (data l) = true /\ len (data l) < 256.
+
+(* the bytes of the record of l *)
+Definition line_bytes (l : HexLine) : list Z :=
+  let s := len (data l) + address l / 256 + address l mod 256 + typ l + sumZ (data l) in
+  len (data l) :: address l / 256 :: address l mod 256 :: typ l :: data l ++ [(- s) mod 256].
+
+Lemma crc_twos s : Z.land (Z.lnot s + 1) 255 = (- s) mod 256.
+Proof.
+  unfold Z.lnot. change 255 with (2 ^ 8 - 1). rewrite land_ones_mod by lia.
+  change (2 ^ 8) with 256. f_equal. lia.
+Qed.
+
+Lemma to_line_ok l : valid_line l -> to_line l = Ok (String ":" (hexlify (line_bytes l))).
+Proof.
+  intros (Ha & Ht & Hd & Hn). unfold to_line, pack_H, line_bytes.
+  pose proof (len_nonneg (data l)).
+  replace (is_byte (len (data l))) with true by (unfold is_byte; lia).
+  replace ((0 <=? address l) && (address l <? 65536)) with true by lia.
+  cbn [guard bind]. rewrite Ht. cbn [guard app]. rewrite crc_twos.
+  assert (E : sumZ (len (data l) :: address l / 256 :: address l mod 256 :: typ l :: data l)
+              = len (data l) + address l / 256 + address l mod 256 + typ l + sumZ (data l))
+    by (cbn [sumZ]; lia).
+  rewrite E. reflexivity.
+Qed.
+
+Lemma line_bytes_all_byte l : valid_line l -> all_byte (line_bytes l) = true.
+Proof.
+  intros (Ha & Ht & Hd & Hn). unfold line_bytes. pose proof (len_nonneg (data l)).
+  cbn [all_byte forallb]. fold (all_byte (data l ++ [(- (len (data l) + address l / 256 + address l mod 256 + typ l + sumZ (data l))) mod 256])).
+  rewrite all_byte_app, Hd, Ht. cbn [all_byte forallb]. unfold is_byte. lia.
+Qed.
+
+Lemma firstn_len_app {A} (a b : list A) : firstn (List.length a) (a ++ b) = a.
+Proof. rewrite firstn_app, Nat.sub_diag, firstn_all. cbn [firstn]. apply app_nil_r. Qed.
+
+Lemma line_roundtrip l : valid_line l ->
+  exists s, to_line l = Ok s /\ from_line s = Ok l.
+Proof.
+  intros Hv. rewrite (to_line_ok l Hv). eexists. split; [reflexivity|].
+  pose proof (line_bytes_all_byte l Hv) as Hb.
+  destruct Hv as (Ha & Ht & Hd & Hn). pose proof (len_nonneg (data l)).
+  unfold from_line. change (Ascii.eqb ":" ":") with true. cbn [negb].
+  rewrite (fromhex_hexlify _ Hb). unfold line_bytes in *.
+  set (crc := (- (len (data l) + address l / 256 + address l mod 256 + typ l + sumZ (data l))) mod 256) in *.
+  assert (E1 : len (len (data l) :: address l / 256 :: address l mod 256 :: typ l :: data l ++ [crc])
+               = len (data l) + 5).
+  { rewrite !len_cons, len_app. change (len [crc]) with 1. lia. }
+  rewrite E1. replace (len (data l) + 5 =? len (data l) + 5) with true by lia. cbn [negb].
+  assert (E2 : Z.land (sumZ (len (data l) :: address l / 256 :: address l mod 256 :: typ l :: data l ++ [crc])) 255 = 0).
+  { change 255 with (2 ^ 8 - 1). rewrite land_ones_mod by lia. change (2 ^ 8) with 256.
+    cbn [sumZ]. rewrite sumZ_app. cbn [sumZ]. unfold crc. lia. }
+  rewrite E2. change (0 =? 0) with true. cbn [negb].
+  unfold sliceZ at 1. change (Z.to_nat (3 - 1)) with 2%nat. change (Z.to_nat 1) with 1%nat.
+  cbn [skipn firstn unpack_H bind].
+  unfold nthZ. change (3 <? 0) with false. change (Z.to_nat 3) with 3%nat. cbn [nth_error].
+  unfold sliceZ. change (Z.to_nat 4) with 4%nat. cbn [skipn].
+  replace (Z.to_nat (len (data l) + 5 - 1 - 4)) with (List.length (data l)) by (unfold len; lia).
+  rewrite firstn_len_app.
+  replace (address l / 256 * 256 + address l mod 256) with (address l) by lia.
+  destruct l; reflexivity.
+Qed.
+
+(* the reference reader accepts every emitted line: length byte and checksum are right *)
+Lemma line_checksum_length l : valid_line l ->
+  exists s, to_line l = Ok s /\ read_line s = Some (mk_irec (address l) (typ l) (data l)).
+Proof.
+  intros Hv. rewrite (to_line_ok l Hv). eexists. split; [reflexivity|].
+  pose proof (line_bytes_all_byte l Hv) as Hb.
+  destruct Hv as (Ha & Ht & Hd & Hn). pose proof (len_nonneg (data l)).
+  unfold read_line, parse_line. change (Z.of_nat (nat_of_ascii ":") =? 58) with true. cbn iota.
+  rewrite (hex_bytes_hexlify _ Hb). unfold line_bytes in *. unfold decode.
+  rewrite Hb. rewrite removelast_last, last_last.
+  replace (len (data l) =? len (data l)) with true by lia.
+  rewrite len_app. change (len [?x]) with 1.
+  replace (1 <=? len (data l) + 1) with true by lia.
+  match goal with |- context [?a =? ?b] => replace (a =? b) with true by (apply eq_sym, Z.eqb_eq; f_equal; lia) end.
+  cbn [andb]. do 2 f_equal. lia.
+Qed.
+
+(* ---------------- check *)
+From Coq Require Import Permutation.
+
+Definition nonempty (rs : list region) : Prop := Forall (fun r => 0 < len (snd r)) rs.
+
+Lemma insert_perm r l : Permutation (r :: l) (insert_region r l).
+Proof.
+  induction l as [|x t IH]; cbn [insert_region]; [reflexivity|].
+  destruct (fst r <=? fst x); [reflexivity|].
+  eapply perm_trans; [apply perm_swap|]. now apply perm_skip.
+Qed.
+Lemma sort_perm l : Permutation l (sort_regions l).
+Proof.
+  induction l as [|x t IH]; cbn [sort_regions]; [reflexivity|].
+  eapply perm_trans; [apply perm_skip, IH | apply insert_perm].
+Qed.
+
+Lemma holds_perm l l' a x : Permutation l l' -> holds l a x -> holds l' a x.
+Proof. intros P (b & Hin & Hb). exists b. split; [eapply Permutation_in; eauto | exact Hb]. Qed.
+
+Lemma block_lookup_app a d1 d2 x b :
+  block_lookup (a, d1 ++ d2) x = Some b <->
+  block_lookup (a, d1) x = Some b \/ block_lookup (a + len d1, d2) x = Some b.
+Proof.
+  unfold block_lookup. cbn [fst snd]. rewrite len_app.
+  pose proof (len_nonneg d1). pose proof (len_nonneg d2).
+  destruct ((a <=? x) && (x <? a + len d1)) eqn:E1.
+  - replace ((a <=? x) && (x <? a + (len d1 + len d2))) with true by lia.
+    replace ((a + len d1 <=? x) && (x <? a + len d1 + len d2)) with false by lia.
+    rewrite nth_error_app1 by (unfold len in *; lia). intuition discriminate.
+  - destruct ((a + len d1 <=? x) && (x <? a + len d1 + len d2)) eqn:E2.
+    + replace ((a <=? x) && (x <? a + (len d1 + len d2))) with true by lia.
+      rewrite nth_error_app2 by (unfold len in *; lia).
+      replace (Z.to_nat (x - a) - List.length d1)%nat with (Z.to_nat (x - (a + len d1))) by (unfold len; lia).
+      intuition discriminate.
+    + replace ((a <=? x) && (x <? a + (len d1 + len d2))) with false by lia. intuition discriminate.
+Qed.
+
+Lemma holds_cons r l a x : holds (r :: l) a x <-> block_lookup r a = Some x \/ holds l a x.
+Proof.
+  unfold holds. split.
+  - intros (b & [<-|Hin] & Hb); [now left | right; eauto].
+  - intros [H|(b & Hin & Hb)]; [exists r; cbn; auto | exists b; cbn; auto].
+Qed.
+
+Lemma scan_some l : forall l', scan l = Ok (Some l') ->
+  (forall a x, holds l' a x <-> holds l a x) /\ S (List.length l') = List.length l /\
+  (nonempty l -> nonempty l').
+Proof.
+  induction l as [|r1 tl IH]; intros l' H; [discriminate|].
+  cbn [scan] in H. destruct tl as [|r2 rest]; [discriminate|].
+  destruct (r_end r1 =? fst r2) eqn:E1.
+  - injection H as <-. split; [|split].
+    + intros a x. rewrite !holds_cons. destruct r1 as [a1 d1], r2 as [a2 d2].
+      unfold r_end in E1. cbn [fst snd] in *. rewrite block_lookup_app.
+      replace (a1 + len d1) with a2 by lia. tauto.
+    + reflexivity.
+    + intros Hn. inversion Hn as [|? ? H1 Hn']. inversion Hn' as [|? ? H2 Hn'']. subst.
+      constructor; [|assumption]. cbn [snd]. rewrite len_app. lia.
+  - destruct (r_end r1 >? fst r2); [discriminate|].
+    destruct (scan (r2 :: rest)) as [[l2|]| | |] eqn:E2; cbn [bind option_map] in H; try discriminate.
+    injection H as <-. destruct (IH l2 eq_refl) as (H1 & H2 & H3). split; [|split].
+    + intros a x. rewrite !(holds_cons r1). now rewrite H1.
+    + cbn [List.length] in *. lia.
+    + intros Hn. inversion Hn; subst. constructor; [assumption|]. now apply H3.
+Qed.
+
+(* gaps between neighbours *)
+Fixpoint separated (l : list region) : Prop :=
+  match l with
+  | [] => True
+  | r :: tl => match tl with [] => True | r2 :: _ => r_end r < fst r2 end /\ separated tl
+  end.
+
+Lemma scan_none l : scan l = Ok None -> separated l.
+Proof.
+  induction l as [|r1 tl IH]; intros H; [exact I|].
+  cbn [scan] in H. destruct tl as [|r2 rest]; [cbn; auto|].
+  destruct (r_end r1 =? fst r2) eqn:E1; [discriminate|].
+  destruct (r_end r1 >? fst r2) eqn:E2; [discriminate|].
+  destruct (scan (r2 :: rest)) as [[l2|]| | |] eqn:E3; cbn [bind option_map] in H; try discriminate.
+  split; [lia | now apply IH].
+Qed.
+
+Lemma canonical_of l : nonempty l -> separated l -> canonical l.
+Proof.
+  induction l as [|r tl IH]; intros Hn Hs; [exact I|].
+  inversion Hn as [|? ? Hr Ht]; subst. destruct Hs as [Hs1 Hs2]. cbn [canonical]. split; [assumption|].
+  split; [destruct tl; [exact I | exact Hs1] | now apply IH].
+Qed.
+
+Lemma check_loop_sound fuel : forall l l', check_loop fuel l = Ok l' -> nonempty l ->
+  (forall a x, holds l' a x <-> holds l a x) /\ canonical l'.
+Proof.
+  induction fuel as [|f IH]; intros l l' H Hn; [discriminate|].
+  cbn [check_loop] in H. destruct (len l <=? 1) eqn:E.
+  - injection H as <-. split; [tauto|]. apply canonical_of; [assumption|].
+    destruct l as [|r [|r2 t]]; cbn; auto. rewrite !len_cons in E. pose proof (len_nonneg t). lia.
+  - destruct (scan l) as [[l2|]| | |] eqn:E2; cbn [bind] in H; try discriminate.
+    + destruct (scan_some l l2 E2) as (H1 & H2 & H3).
+      destruct (IH l2 l' H (H3 Hn)) as (H4 & H5). split; [|assumption].
+      intros a x. now rewrite H4.
+    + injection H as <-. split; [tauto|]. apply canonical_of; [assumption | now apply scan_none].
+Qed.
+
+Lemma scan_no_fuel l : scan l <> OutOfFuel.
+Proof.
+  induction l as [|r1 tl IH]; [discriminate|]. cbn [scan]. destruct tl as [|r2 rest]; [discriminate|].
+  destruct (r_end r1 =? fst r2); [discriminate|]. destruct (r_end r1 >? fst r2); [discriminate|].
+  destruct (scan (r2 :: rest)) as [[l2|]| | |]; cbn [bind]; try discriminate. congruence.
+Qed.
+
+Lemma check_loop_fuel fuel : forall l, (List.length l < fuel)%nat -> check_loop fuel l <> OutOfFuel.
+Proof.
+  induction fuel as [|f IH]; intros l Hl; [lia|].
+  cbn [check_loop]. destruct (len l <=? 1); [discriminate|].
+  destruct (scan l) as [[l2|]| | |] eqn:E2; cbn [bind]; try discriminate.
+  - apply IH. destruct (scan_some l l2 E2) as (_ & H2 & _). lia.
+  - exfalso. now apply (scan_no_fuel l).
+Qed.
+
+Lemma nonempty_perm l l' : Permutation l l' -> nonempty l -> nonempty l'.
+Proof. intros P H. unfold nonempty in *. rewrite Forall_forall in *. intros r Hr. apply H. eapply Permutation_in; [symmetry; eassumption | assumption]. Qed.
+
+Lemma check_merges rs rs' : nonempty rs -> check rs = Ok rs' ->
+  (forall a x, holds rs' a x <-> holds rs a x) /\ canonical rs'.
+Proof.
+  intros Hn H. unfold check in H.
+  destruct (check_loop_sound _ _ _ H (nonempty_perm _ _ (sort_perm rs) Hn)) as (H1 & H2).
+  split; [|assumption]. intros a x. rewrite H1. split; apply holds_perm; [symmetry|]; apply sort_perm.
+Qed.
+
+Lemma check_terminates rs : check rs <> OutOfFuel.
+Proof.
+  unfold check. apply check_loop_fuel.
+  rewrite <- (Permutation_length (sort_perm rs)). lia.
+Qed.
+
+(* ---------------- chunks (30 bytes) *)
+Fixpoint chunk_list (n : nat) (l : list Z) : list (list Z) :=
+  match n with O => [] | S n' => firstn 30 l :: chunk_list n' (skipn 30 l) end.
+
+Lemma skipn_add {A} b : forall (l : list A) a, skipn a (skipn b l) = skipn (b + a) l.
+Proof.
+  induction b as [|b IH]; intros l a; [reflexivity|].
+  destruct l as [|x l]; [now rewrite !skipn_nil|]. cbn [skipn Nat.add]. apply IH.
+Qed.
+Lemma chunks_gen d n : forall i, 0 <= i ->
+  map (fun i => sliceZ d i (i + 30)) (seqZ_step i 30 n) = chunk_list n (skipn (Z.to_nat i) d).
+Proof.
+  induction n as [|n IH]; intros i Hi; [reflexivity|].
+  cbn [seqZ_step map chunk_list]. f_equal.
+  - unfold sliceZ. replace (i + 30 - i) with 30 by lia. reflexivity.
+  - rewrite IH by lia. f_equal. rewrite skipn_add. f_equal. lia.
+Qed.
+Definition nchunks (l : list Z) : nat := Z.to_nat ((len l + 29) / 30).
+Lemma chunks_chunk_list d : chunks d = chunk_list (nchunks d) d.
+Proof.
+  unfold chunks, rangeZ_step, nchunks. rewrite chunks_gen by lia. cbn [Z.to_nat skipn].
+  do 2 f_equal. lia.
+Qed.
+Lemma len_skipn30 (l : list Z) : 30 <= len l -> len (skipn 30 l) = len l - 30.
+Proof. unfold len. rewrite skipn_length. lia. Qed.
+Lemma len_skipn30' (l : list Z) : len (skipn 30 l) = Z.max 0 (len l - 30).
+Proof. unfold len. rewrite skipn_length. lia. Qed.
+Lemma nchunks_S l : 0 < len l -> nchunks l = S (nchunks (skipn 30 l)).
+Proof.
+  intros H. unfold nchunks. rewrite len_skipn30'.
+  destruct (Z_lt_le_dec (len l) 30); [replace ((len l + 29) / 30) with 1 by lia; replace (Z.max 0 (len l - 30)) with 0 by lia; reflexivity | lia].
+Qed.
+Lemma nchunks_0 l : len l = 0 -> nchunks l = O.
+Proof. intros H. unfold nchunks. rewrite H. reflexivity. Qed.
+Lemma nchunks_pos n l : S n = nchunks l -> 0 < len l.
+Proof.
+  intros H. destruct (Z.eq_dec (len l) 0) as [E|E]; [rewrite (nchunks_0 _ E) in H; discriminate|].
+  pose proof (len_nonneg l). lia.
+Qed.
+Lemma all_byte_firstn n l : all_byte l = true -> all_byte (firstn n l) = true.
+Proof. intros H. rewrite <- (firstn_skipn n l), all_byte_app in H. now apply andb_true_iff in H. Qed.
+Lemma all_byte_skipn n l : all_byte l = true -> all_byte (skipn n l) = true.
+Proof. intros H. rewrite <- (firstn_skipn n l), all_byte_app in H. now apply andb_true_iff in H. Qed.
+Lemma len_firstn30 (l : list Z) : len (firstn 30 l) = Z.min 30 (len l).
+Proof. unfold len. rewrite firstn_length. lia. Qed.
+Lemma len_split30 (l : list Z) : len l = len (firstn 30 l) + len (skipn 30 l).
+Proof. rewrite <- len_app, firstn_skipn. reflexivity. Qed.
+
+(* ---------------- save: lines -> records *)
+Definition rec4 (e : Z) : irec := mk_irec 0 4 [e / 256; e mod 256].
+
+Fixpoint recs_chunks (chs : list (list Z)) (ext addr : Z) : list irec :=
+  match chs with
+  | [] => []
+  | c :: r =>
+      if addr >=? 65536
+      then rec4 (Z.shiftr (ext + 65536) 16) :: mk_irec (addr - 65536) 0 c
+             :: recs_chunks r (ext + 65536) (addr - 65536 + len c)
+      else mk_irec addr 0 c :: recs_chunks r ext (addr + len c)
+  end.
+
+Lemma to_line_reads a t d : 0 <= a < 65536 -> is_byte t = true -> all_byte d = true -> len d < 256 ->
+  exists s, to_line (mkHexLine a t d) = Ok s /\ read_line s = Some (mk_irec a t d).
+Proof. intros. apply (line_checksum_length (mkHexLine a t d)). repeat split; cbn; auto; lia. Qed.
+
+Lemma ext_line_reads e : 0 <= e < 65536 ->
+  exists s, (x <- pack_H e ;; to_line (mkHexLine 0 4 x)) = Ok s /\ read_line s = Some (rec4 e).
+Proof.
+  intros H. unfold pack_H. replace ((0 <=? e) && (e <? 65536)) with true by lia. cbn [bind].
+  apply to_line_reads; [lia | reflexivity | | reflexivity].
+  cbn [all_byte forallb]. unfold is_byte. lia.
+Qed.
+
+Definition chunk_inv (ext addr : Z) (l : list Z) : Prop :=
+  0 <= ext /\ ext mod 65536 = 0 /\ 0 <= addr < 65566 /\ ext + addr + len l <= 4294967296.
+
+Lemma chunk_inv_step ext addr l : chunk_inv ext addr l -> 0 < len l ->
+  (addr >=? 65536) = true ->
+  chunk_inv (ext + 65536) (addr - 65536 + len (firstn 30 l)) (skipn 30 l) /\
+  0 <= Z.shiftr (ext + 65536) 16 < 65536 /\ Z.shiftr (ext + 65536) 16 * 65536 = ext + 65536.
+Proof.
+  intros (H1 & H2 & H3 & H4) Hl Ha. rewrite shiftr_div by lia. change (2 ^ 16) with 65536.
+  pose proof (len_split30 l). pose proof (len_firstn30 l). pose proof (len_nonneg (skipn 30 l)).
+  unfold chunk_inv. repeat split; try lia.
+Qed.
+Lemma chunk_inv_step2 ext addr l : chunk_inv ext addr l ->
+  (addr >=? 65536) = false -> chunk_inv ext (addr + len (firstn 30 l)) (skipn 30 l).
+Proof.
+  intros (H1 & H2 & H3 & H4) Ha. pose proof (len_nonneg l).
+  pose proof (len_split30 l). pose proof (len_firstn30 l). pose proof (len_nonneg (skipn 30 l)).
+  unfold chunk_inv. repeat split; try lia.
+Qed.
+
+Lemma save_chunks_reads n : forall l ext addr, n = nchunks l -> all_byte l = true -> chunk_inv ext addr l ->
+  exists ls, save_chunks (chunk_list n l) ext addr = Ok ls /\
+             read_lines ls = Some (recs_chunks (chunk_list n l) ext addr).
+Proof.
+  induction n as [|n IH]; intros l ext addr Hn Hb Hi; [cbn; eauto|].
+  pose proof (nchunks_pos _ _ Hn) as Hl. rewrite (nchunks_S _ Hl) in Hn. injection Hn as Hn.
+  cbn [chunk_list save_chunks recs_chunks].
+  pose proof (len_firstn30 l) as Hf.
+  destruct (addr >=? 65536) eqn:Ea.
+  - destruct (chunk_inv_step _ _ _ Hi Hl Ea) as (Hi' & He & _).
+    destruct (ext_line_reads _ He) as (s1 & Hs1 & Hr1).
+    destruct (pack_H (Z.shiftr (ext + 65536) 16)) as [x| | |] eqn:Ep; cbn [bind] in Hs1; try discriminate.
+    cbn [bind]. rewrite Hs1. cbn [bind].
+    destruct (to_line_reads (addr - 65536) 0 (firstn 30 l)) as (s2 & Hs2 & Hr2);
+      [destruct Hi as (_ & _ & ? & _); lia | reflexivity | now apply all_byte_firstn | lia |].
+    rewrite Hs2. cbn [bind].
+    destruct (IH (skipn 30 l) (ext + 65536) (addr - 65536 + len (firstn 30 l)) Hn (all_byte_skipn 30 l Hb) Hi') as (ls & Hls & Hrs).
+    rewrite Hls. cbn [bind]. eexists. split; [reflexivity|]. cbn [read_lines]. now rewrite Hr1, Hr2, Hrs.
+  - pose proof (chunk_inv_step2 _ _ _ Hi Ea) as Hi'.
+    destruct (to_line_reads addr 0 (firstn 30 l)) as (s2 & Hs2 & Hr2);
+      [destruct Hi as (_ & _ & ? & _); lia | reflexivity | now apply all_byte_firstn | lia |].
+    rewrite Hs2. cbn [bind].
+    destruct (IH (skipn 30 l) ext (addr + len (firstn 30 l)) Hn (all_byte_skipn 30 l Hb) Hi') as (ls & Hls & Hrs).
+    rewrite Hls. cbn [bind]. eexists. split; [reflexivity|]. cbn [read_lines]. now rewrite Hr2, Hrs.
+Qed.
+
+(* ---------------- save: records -> blocks *)
+Fixpoint blocks_of (chs : list (list Z)) (a : Z) : list (Z * list Z) :=
+  match chs with [] => [] | c :: r => (a, c) :: blocks_of r (a + len c) end.
+
+Lemma be_value2 e : 0 <= e -> be_value [e / 256; e mod 256] = e.
+Proof. intros H. unfold be_value. cbn [fold_left]. lia. Qed.
+
+Lemma interp_chunks n : forall l ext addr ulba blocks start,
+  n = nchunks l -> chunk_inv ext addr l -> ulba * 65536 = ext ->
+  exists ulba', forall rest,
+    interp (recs_chunks (chunk_list n l) ext addr ++ rest) ulba blocks start =
+    interp rest ulba' (rev (blocks_of (chunk_list n l) (ext + addr)) ++ blocks) start.
+Proof.
+  induction n as [|n IH]; intros l ext addr ulba blocks start Hn Hi Hu; [exists ulba; reflexivity|].
+  pose proof (nchunks_pos _ _ Hn) as Hl. rewrite (nchunks_S _ Hl) in Hn. injection Hn as Hn.
+  cbn [chunk_list recs_chunks blocks_of].
+  pose proof (len_firstn30 l) as Hf. pose proof (len_split30 l) as Hsp. pose proof (len_nonneg (skipn 30 l)).
+  destruct (addr >=? 65536) eqn:Ea.
+  - destruct (chunk_inv_step _ _ _ Hi Hl Ea) as (Hi' & He & He2).
+    set (e := Z.shiftr (ext + 65536) 16) in *.
+    destruct (IH (skipn 30 l) (ext + 65536) (addr - 65536 + len (firstn 30 l)) e
+                 ((ext + addr, firstn 30 l) :: blocks) start Hn Hi' He2) as (u' & Hu').
+    exists u'. intros rest. cbn [app interp rec4 i_typ i_data i_off].
+    change (4 =? 1) with false. change (4 =? 0) with false. change (4 =? 4) with true. cbn iota.
+    change (len [e / 256; e mod 256] =? 2) with true. cbn iota. rewrite be_value2 by lia.
+    change (0 =? 1) with false. change (0 =? 0) with true. cbn iota.
+    replace (e * 65536 + (addr - 65536)) with (ext + addr) by lia.
+    destruct Hi as (? & ? & ? & ?).
+    replace (ext + addr + len (firstn 30 l) <=? 4294967296) with true by lia.
+    rewrite Hu'. cbn [rev]. rewrite <- app_assoc. cbn [app].
+    replace (ext + 65536 + (addr - 65536 + len (firstn 30 l))) with (ext + addr + len (firstn 30 l)) by lia.
+    reflexivity.
+  - pose proof (chunk_inv_step2 _ _ _ Hi Ea) as Hi'.
+    destruct (IH (skipn 30 l) ext (addr + len (firstn 30 l)) ulba
+                 ((ext + addr, firstn 30 l) :: blocks) start Hn Hi' Hu) as (u' & Hu').
+    exists u'. intros rest. cbn [app interp i_typ i_data i_off].
+    change (0 =? 1) with false. change (0 =? 0) with true. cbn iota.
+    replace (ulba * 65536 + addr) with (ext + addr) by lia.
+    destruct Hi as (? & ? & ? & ?).
+    replace (ext + addr + len (firstn 30 l) <=? 4294967296) with true by lia.
+    rewrite Hu'. cbn [rev]. rewrite <- app_assoc. cbn [app].
+    replace (ext + (addr + len (firstn 30 l))) with (ext + addr + len (firstn 30 l)) by lia.
+    reflexivity.
+Qed.
+
+Lemma lookup_app xs ys a :
+  lookup (xs ++ ys) a = match lookup xs a with Some b => Some b | None => lookup ys a end.
+Proof. induction xs as [|x xs IH]; cbn [app lookup]; [reflexivity|]. destruct (block_lookup x a); auto. Qed.
+
+Lemma block_lookup_nil b a : block_lookup (b, []) a = None.
+Proof. unfold block_lookup. cbn [fst snd]. change (len []) with 0. destruct (_ && _) eqn:E; [lia|reflexivity]. Qed.
+
+Lemma lookup_blocks n : forall l A x, (List.length l <= n * 30)%nat ->
+  lookup (blocks_of (chunk_list n l) A) x = block_lookup (A, l) x.
+Proof.
+  induction n as [|n IH]; intros l A x Hn.
+  - destruct l; [|cbn in Hn; lia]. cbn [chunk_list blocks_of lookup]. now rewrite block_lookup_nil.
+  - cbn [chunk_list blocks_of lookup]. rewrite IH by (rewrite skipn_length; lia).
+    generalize (firstn_skipn 30 l). generalize (firstn 30 l) (skipn 30 l). intros c r Hl. subst l.
+    destruct (block_lookup (A, c) x) eqn:E1.
+    + symmetry. apply block_lookup_app. now left.
+    + destruct (block_lookup (A + len c, r) x) eqn:E2.
+      * symmetry. apply block_lookup_app. now right.
+      * destruct (block_lookup (A, c ++ r) x) eqn:E3; [|reflexivity].
+        apply block_lookup_app in E3. destruct E3; congruence.
+Qed.
+
+(* ---------------- save: one region, all regions, the file *)
+Lemma land_hi a : 0 <= a < 4294967296 -> Z.land a 4294901760 = 65536 * (a / 65536).
+Proof.
+  intros H. transitivity (Z.shiftl (Z.shiftr a 16) 16).
+  - change 4294901760 with (Z.shiftl (Z.ones 16) 16).
+    apply Z.bits_inj'. intros n Hn. rewrite Z.land_spec.
+    destruct (Z.ltb_spec n 16).
+    + rewrite !Z.shiftl_spec_low by lia. apply andb_false_r.
+    + rewrite !Z.shiftl_spec by lia. rewrite Z.shiftr_spec by lia. replace (n - 16 + 16) with n by lia.
+      destruct (Z.ltb_spec n 32).
+      * rewrite Z.ones_spec_low by lia. apply andb_true_r.
+      * rewrite Z.ones_spec_high by lia. rewrite andb_false_r.
+        symmetry. apply (testbit_small a 32); [change (2 ^ 32) with 4294967296|]; lia.
+  - rewrite shiftr_div, shiftl_mul by lia. change (2 ^ 16) with 65536. lia.
+Qed.
+
+Definition region_ok (r : region) : Prop :=
+  0 <= fst r /\ 0 < len (snd r) /\ fst r + len (snd r) <= 4294967296 /\ all_byte (snd r) = true.
+
+Definition region_blocks (r : region) : list (Z * list Z) :=
+  blocks_of (chunk_list (nchunks (snd r)) (snd r)) (fst r).
+
+Definition recs_region (r : region) : list irec :=
+  let ext := Z.land (fst r) 4294901760 in
+  rec4 (Z.shiftr ext 16) :: recs_chunks (chunk_list (nchunks (snd r)) (snd r)) ext (fst r - ext).
+
+Lemma region_ext r : region_ok r ->
+  let ext := Z.land (fst r) 4294901760 in
+  chunk_inv ext (fst r - ext) (snd r) /\ 0 <= Z.shiftr ext 16 < 65536 /\ Z.shiftr ext 16 * 65536 = ext.
+Proof.
+  intros (H1 & H2 & H3 & H4). cbn zeta. rewrite land_hi by lia.
+  rewrite shiftr_div by lia. change (2 ^ 16) with 65536. unfold chunk_inv. repeat split; lia.
+Qed.
+
+Lemma save_region_reads r : region_ok r ->
+  exists ls, save_region r = Ok ls /\ read_lines ls = Some (recs_region r).
+Proof.
+  intros Hr. destruct (region_ext r Hr) as (Hi & He & _). destruct Hr as (H1 & H2 & H3 & H4).
+  unfold save_region, recs_region. rewrite chunks_chunk_list.
+  set (ext := Z.land (fst r) 4294901760) in *.
+  destruct (ext_line_reads _ He) as (s1 & Hs1 & Hr1).
+  destruct (pack_H (Z.shiftr ext 16)) as [x| | |] eqn:Ep; cbn [bind] in Hs1; try discriminate.
+  cbn [bind]. rewrite Hs1. cbn [bind].
+  destruct (save_chunks_reads (nchunks (snd r)) (snd r) ext (fst r - ext) eq_refl H4 Hi) as (ls & Hls & Hrs).
+  rewrite Hls. cbn [bind]. eexists. split; [reflexivity|]. cbn [read_lines]. now rewrite Hr1, Hrs.
+Qed.
+
+Lemma interp_region r ulba blocks start : region_ok r ->
+  exists ulba', forall rest,
+    interp (recs_region r ++ rest) ulba blocks start =
+    interp rest ulba' (rev (region_blocks r) ++ blocks) start.
+Proof.
+  intros Hr. destruct (region_ext r Hr) as (Hi & He & He2). unfold recs_region, region_blocks.
+  set (ext := Z.land (fst r) 4294901760) in *. set (e := Z.shiftr ext 16) in *.
+  destruct (interp_chunks (nchunks (snd r)) (snd r) ext (fst r - ext) e blocks start eq_refl Hi He2)
+    as (u' & Hu').
+  exists u'. intros rest. cbn [app interp rec4 i_typ i_data].
+  change (4 =? 1) with false. change (4 =? 0) with false. change (4 =? 4) with true. cbn iota.
+  change (len [e / 256; e mod 256] =? 2) with true. cbn iota. rewrite be_value2 by lia.
+  rewrite Hu'. replace (ext + (fst r - ext)) with (fst r) by lia. reflexivity.
+Qed.
+
+Fixpoint recs_regions (rs : list region) : list irec :=
+  match rs with [] => [] | r :: t => recs_region r ++ recs_regions t end.
+Fixpoint all_blocks (rs : list region) : list (Z * list Z) :=
+  match rs with [] => [] | r :: t => region_blocks r ++ all_blocks t end.
+
+Lemma read_lines_app a : forall b ra rb, read_lines a = Some ra -> read_lines b = Some rb ->
+  read_lines (a ++ b) = Some (ra ++ rb).
+Proof.
+  induction a as [|x a IH]; intros b ra rb Ha Hb.
+  - injection Ha as <-. exact Hb.
+  - cbn [app read_lines] in *. destruct (read_line x); [|discriminate].
+    destruct (read_lines a) eqn:E; [|discriminate]. injection Ha as <-.
+    now rewrite (IH b _ rb eq_refl Hb).
+Qed.
+
+Lemma save_regions_reads rs : Forall region_ok rs ->
+  exists ls, save_regions rs = Ok ls /\ read_lines ls = Some (recs_regions rs).
+Proof.
+  induction rs as [|r t IH]; intros H; [cbn; eauto|].
+  inversion H as [|? ? Hr Ht]; subst. cbn [save_regions recs_regions].
+  destruct (save_region_reads r Hr) as (l1 & Hl1 & Hr1). destruct (IH Ht) as (l2 & Hl2 & Hr2).
+  rewrite Hl1, Hl2. cbn [bind]. eexists. split; [reflexivity|]. now apply read_lines_app.
+Qed.
+
+Lemma interp_regions rs : Forall region_ok rs -> forall ulba blocks start,
+  exists ulba', forall rest,
+    interp (recs_regions rs ++ rest) ulba blocks start =
+    interp rest ulba' (rev (all_blocks rs) ++ blocks) start.
+Proof.
+  induction rs as [|r t IH]; intros H ulba blocks start; [exists ulba; reflexivity|].
+  inversion H as [|? ? Hr Ht]; subst. cbn [recs_regions all_blocks].
+  destruct (interp_region r ulba blocks start Hr) as (u1 & H1).
+  destruct (IH Ht u1 (rev (region_blocks r) ++ blocks) start) as (u2 & H2).
+  exists u2. intros rest. rewrite <- app_assoc, H1, H2. rewrite rev_app_distr, <- app_assoc. reflexivity.
+Qed.
+
+Lemma lookup_all_blocks rs a : lookup (all_blocks rs) a = lookup rs a.
+Proof.
+  induction rs as [|r t IH]; [reflexivity|]. cbn [all_blocks lookup]. rewrite lookup_app, IH.
+  unfold region_blocks. rewrite lookup_blocks by (unfold nchunks, len; lia).
+  destruct r; reflexivity.
+Qed.
+
+Lemma be_value4 v : 0 <= v < 4294967296 ->
+  be_value [v / 16777216; (v / 65536) mod 256; (v / 256) mod 256; v mod 256] = v.
+Proof. intros H. unfold be_value. cbn [fold_left]. lia. Qed.
+
+Definition hexfile_ok (hf : HexFile) : Prop :=
+  Forall region_ok (regions hf) /\ 0 <= start_address hf < 4294967296.
+
+Lemma save_denotes hf : hexfile_ok hf ->
+  exists lines blocks, save hf = Ok lines /\
+    denote_file lines = Some (blocks, if start_address hf =? 0 then None else Some (start_address hf)) /\
+    forall a, lookup blocks a = lookup (regions hf) a.
+Proof.
+  intros (Hr & Hs). unfold save.
+  destruct (save_regions_reads _ Hr) as (body & Hb & Hrb). rewrite Hb. cbn [bind].
+  destruct (to_line_reads 0 1 []) as (le & Hle & Hre); [lia | reflexivity | reflexivity | cbn; lia |].
+  destruct (interp_regions _ Hr 0 [] None) as (u & Hu).
+  exists (body ++ (if start_address hf =? 0 then [] else
+                   match (d <- pack_I (start_address hf) ;; to_line (mkHexLine 0 5 d)) with Ok l => [l] | _ => [] end) ++ [le]).
+  exists (all_blocks (regions hf)).
+  destruct (start_address hf =? 0) eqn:E0; cbn [negb bind].
+  - rewrite Hle. cbn [bind app]. split; [reflexivity|]. split; [|apply lookup_all_blocks].
+    unfold denote_file. rewrite (read_lines_app body [le] _ [mk_irec 0 1 []] Hrb) by (cbn [read_lines]; now rewrite Hre).
+    rewrite Hu. cbn [interp i_typ i_data]. change (1 =? 1) with true. cbn iota.
+    now rewrite app_nil_r, rev_involutive.
+  - unfold pack_I. replace ((0 <=? start_address hf) && (start_address hf <? 4294967296)) with true by lia.
+    cbn [bind].
+    set (v := start_address hf) in *.
+    destruct (to_line_reads 0 5 [v / 16777216; (v / 65536) mod 256; (v / 256) mod 256; v mod 256])
+      as (l5 & Hl5 & Hr5); [lia | reflexivity | cbn [all_byte forallb]; unfold is_byte; lia | cbn; lia |].
+    rewrite Hl5. cbn [bind]. rewrite Hle. cbn [bind]. split; [reflexivity|]. split; [|apply lookup_all_blocks].
+    unfold denote_file.
+    rewrite (read_lines_app body ([l5] ++ [le]) _ [mk_irec 0 5 [v / 16777216; (v / 65536) mod 256; (v / 256) mod 256; v mod 256]; mk_irec 0 1 []] Hrb)
+      by (cbn [app read_lines]; now rewrite Hr5, Hre).
+    rewrite Hu. cbn [interp i_typ i_data].
+    change (5 =? 1) with false. change (5 =? 0) with false. change (5 =? 4) with false. change (5 =? 5) with true.
+    cbn iota. change (len [?a; ?b; ?c; ?d] =? 4) with true. cbn iota. change (1 =? 1) with true. cbn iota.
+    rewrite be_value4 by lia. now rewrite app_nil_r, rev_involutive.
+Qed.
